@@ -92,6 +92,33 @@ fn run_variant<V: Fv>(ctx: &Ctx, seeds: &[[u8; 32]], table: &Mutex<HashMap<(Stri
     rep.count("concurrent_keygen_threads", threads as u64);
 }
 
+/// Every pool seed is generated twice (the two executions land on different worker threads);
+/// returns the pool size and the seeds ordered by decreasing generation time.
+fn pool_pass<V: Fv>(ctx: &Ctx, n: usize, table: &Mutex<HashMap<(String, [u8; 32]), Vec<(String, Fp)>>>, rep: &mut Report) -> (usize, Vec<[u8; 32]>) {
+    let seeds: Vec<[u8; 32]> = (0..n).map(|i| if i % 3 == 2 { counter_seed(500_000 + ctx.seed * 10_000 + i as u64) } else { seed32(ctx.seed, &format!("c15-pool-{}-{}", V::NAME, i)) }).collect();
+    let times: Mutex<Vec<(f64, [u8; 32])>> = Mutex::new(vec![]);
+    let r = par_for(2 * n, ncpu(), |job, rep| {
+        let s = seeds[job % n];
+        let t0 = std::time::Instant::now();
+        let r = fingerprint::<V>(s);
+        let dt = t0.elapsed().as_secs_f64();
+        rep.evaluations += 1;
+        match r {
+            Ok(fp) => {
+                record(&mut table.lock().unwrap(), V::NAME, s, if job < n { "pool-pass-1" } else { "pool-pass-2" }, fp);
+                if job < n {
+                    times.lock().unwrap().push((dt, s));
+                }
+            }
+            Err(e) => rep.violation("panic:keygen", format!("{} keygen({}) panicked: {}", V::NAME, hex(&s), e), json!({"variant": V::NAME, "seed": hex(&s)})),
+        }
+    });
+    rep.merge(r);
+    let mut t = times.into_inner().unwrap();
+    t.sort_by(|a, b| b.0.partial_cmp(&a.0).unwrap());
+    (n, t.into_iter().map(|x| x.1).collect())
+}
+
 /// Child mode: print fingerprints of the given seeds (hex) for both variants.
 pub fn child(ctx: &Ctx, rep: &mut Report) {
     for a in &ctx.args {
@@ -106,8 +133,16 @@ pub fn child(ctx: &Ctx, rep: &mut Report) {
 
 pub fn determinism(ctx: &Ctx, rep: &mut Report) {
     let table: Mutex<HashMap<(String, [u8; 32]), Vec<(String, Fp)>>> = Mutex::new(HashMap::new());
-    let s512 = seeds_for(ctx, ctx.sz(5, 40));
-    let s1024: Vec<[u8; 32]> = seeds_for(ctx, ctx.sz(1, 8)).into_iter().take(ctx.sz(2, 11)).collect();
+    // (0) a larger pool, every seed generated twice by different worker threads; the seeds
+    // whose key search took longest (most generator output, most rejected candidates) are then
+    // taken through the heavier contexts below. Wall time is used only to steer, never as an oracle.
+    let (pool512, slow512) = pool_pass::<F512>(ctx, ctx.sz(96, 1200), &table, rep);
+    let (pool1024, slow1024) = pool_pass::<F1024>(ctx, ctx.sz(24, 240), &table, rep);
+    rep.count("pool_seeds_generated_twice", (pool512 + pool1024) as u64);
+    let mut s512 = seeds_for(ctx, ctx.sz(2, 30));
+    s512.extend(slow512.into_iter().take(ctx.sz(4, 12)));
+    let mut s1024: Vec<[u8; 32]> = seeds_for(ctx, 0).into_iter().take(1).collect();
+    s1024.extend(slow1024.into_iter().take(ctx.sz(2, 8)));
     // (c) two child processes with a different environment (size, variables); they run
     // while this process does its own passes
     let exe = std::env::current_exe().expect("exe");
